@@ -36,7 +36,8 @@ struct Uni {
     vs_name: Vec<u32>,
     vs_match: Vec<Vec<u32>>,
     unions: Vec<Vec<u32>>,
-    cancel_after: Option<usize>, // number of provider fetch calls after which should_cancel fires
+    cancel_after: std::cell::Cell<Option<usize>>, // number of provider fetch calls (of the current solve) after which should_cancel fires
+    calls_at_solve_start: std::cell::Cell<usize>,
     calls: RefCell<Vec<(u8, u32)>>, // 0 get_candidates(name), 1 get_dependencies(solvable), 2 filter(vs), 3 sort, 4 cancel fired
 }
 
@@ -86,7 +87,6 @@ impl Uni {
         for un in v["unions"].as_array().unwrap() {
             u.unions.push(u32s(un));
         }
-        u.cancel_after = v["cancel_after"].as_u64().map(|x| x as usize);
         u
     }
 }
@@ -157,8 +157,8 @@ impl DependencyProvider for Uni {
         }
     }
     fn should_cancel_with_value(&self) -> Option<Box<dyn Any>> {
-        if let Some(n) = self.cancel_after {
-            let fetches = self.calls.borrow().iter().filter(|c| c.0 <= 1).count();
+        if let Some(n) = self.cancel_after.get() {
+            let fetches = self.calls.borrow()[self.calls_at_solve_start.get()..].iter().filter(|c| c.0 <= 1).count();
             if fetches >= n {
                 self.calls.borrow_mut().push((4, fetches as u32));
                 return Some(Box::new(4242u32));
@@ -195,6 +195,8 @@ fn solve_once(solver: &mut Solver<Uni>, prob: &Value, want_dump: bool) -> Value 
     let cons: Vec<VersionSetId> = u32s(&prob["con"]).into_iter().map(VersionSetId).collect();
     let soft: Vec<SolvableId> = u32s(&prob["soft"]).into_iter().map(SolvableId).collect();
     let ncalls_before = solver.provider().calls.borrow().len();
+    solver.provider().calls_at_solve_start.set(ncalls_before);
+    solver.provider().cancel_after.set(prob["cancel_after"].as_u64().map(|x| x as usize));
     let problem = Problem::new().requirements(reqs).constraints(cons).soft_requirements(soft);
     let r = std::panic::catch_unwind(std::panic::AssertUnwindSafe(|| solver.solve(problem)));
     let mut out = json!({});
